@@ -10,6 +10,7 @@ import (
 	"context"
 	"errors"
 	"fmt"
+	"math/rand"
 	"net/http"
 	"strconv"
 	"strings"
@@ -63,8 +64,80 @@ var staticHeaders = http.Header{
 // histories
 
 type step struct {
-	Kind string // init | init-fail | op | notify | provider | push-roots | push-unknown | terminate
-	Op   string // for Kind == op: the request method
+	Kind string // init | init-fail | op | notify | provider | push-roots | push-unknown | terminate | reinit | fail
+	Op   string // for Kind == op: the request method; for Kind == fail: the operation that fails and is retried
+	Fail string // for Kind == fail: "503" (the server answers the next request 503) | "veto" (before-request refuses the call's context)
+	Auto bool   // inserted by the harness while executing (see execute), not part of the generated history
+}
+
+// successionKinds: the alphabet of the succession histories. "reinit" is Close + Initialize on the same client
+// object (only the Streamable client can be initialised again after Close); "fail-503" / "fail-veto" are an
+// operation that fails (scripted) followed by the same operation retried under a new context.
+func successionKinds(client string) []string {
+	k := append([]string{}, sixOps...)
+	k = append(k, "notify", "push-roots", "push-unknown", "terminate", "fail-503", "fail-veto")
+	if client == clStream {
+		k = append(k, "reinit")
+	}
+	return k
+}
+
+// eulerCircuit returns a seeded random Euler circuit of the complete directed graph with loops on n vertices:
+// a vertex sequence of length n*n+1 in which every ordered pair (a,b), a==b included, is adjacent exactly once.
+func eulerCircuit(n int, rng *rand.Rand) []int {
+	adj := make([][]int, n)
+	for i := range adj {
+		adj[i] = rng.Perm(n)
+	}
+	stack := []int{rng.Intn(n)}
+	var circuit []int
+	for len(stack) > 0 {
+		v := stack[len(stack)-1]
+		if k := len(adj[v]); k > 0 {
+			stack = append(stack, adj[v][k-1])
+			adj[v] = adj[v][:k-1]
+		} else {
+			circuit = append(circuit, v)
+			stack = stack[:len(stack)-1]
+		}
+	}
+	for i, j := 0, len(circuit)-1; i < j; i, j = i+1, j-1 {
+		circuit[i], circuit[j] = circuit[j], circuit[i]
+	}
+	return circuit
+}
+
+// successionHistory: Initialize, then a history in which every operation kind is directly followed by every
+// operation kind (itself included) once, all on one client object.
+func successionHistory(client string, rng *rand.Rand) []step {
+	kinds := successionKinds(client)
+	failable := append(append([]string{}, sixOps...), "notify")
+	if client == clStream {
+		failable = append(failable, "terminate")
+	}
+	h := []step{{Kind: "init"}}
+	for _, v := range eulerCircuit(len(kinds), rng) {
+		switch k := kinds[v]; k {
+		case "notify", "push-roots", "push-unknown", "terminate", "reinit":
+			h = append(h, step{Kind: k})
+		case "fail-503", "fail-veto":
+			h = append(h, step{Kind: "fail", Op: failable[rng.Intn(len(failable))], Fail: strings.TrimPrefix(k, "fail-")})
+		default:
+			h = append(h, step{Kind: "op", Op: k})
+		}
+	}
+	return h
+}
+
+// kindName: the alphabet letter of a step.
+func (s step) kindName() string {
+	switch s.Kind {
+	case "op":
+		return s.Op
+	case "fail":
+		return "fail-" + s.Fail
+	}
+	return s.Kind
 }
 
 var sixOps = []string{"tools/list", "tools/call", "prompts/list", "prompts/get", "resources/list", "resources/read"}
@@ -112,11 +185,16 @@ func retryHistory(rest []step) []step {
 func histString(h []step) string {
 	var p []string
 	for _, s := range h {
-		if s.Kind == "op" {
-			p = append(p, s.Op)
-		} else {
-			p = append(p, s.Kind)
+		n := s.Kind
+		switch {
+		case s.Kind == "op":
+			n = s.Op
+		case s.Kind == "fail":
+			n = "fail-" + s.Fail + "(" + s.Op + ")+retry"
+		case s.Auto:
+			n = "auto-" + s.Kind
 		}
+		p = append(p, n)
 	}
 	return strings.Join(p, ",")
 }
@@ -130,7 +208,18 @@ type runSpec struct {
 	failAt int
 	retry  string // "": plain history; "503" | "veto" | "refuse": how the first handshake of a retry history fails
 	hist   []step
-	label  string // canonical | random-<n>
+	label  string // canonical | random-<n> | succession-<n>
+}
+
+// stepRec is one executed step of a history.
+type stepRec struct {
+	Kind    string // alphabet letter (kindName)
+	Prev    string // letter of the step executed before it
+	Auto    bool
+	Skipped bool // nothing was attempted (server push without an open stream)
+	SrvFrom int  // server log range of the step
+	SrvTo   int
+	Live    bool // Streamable: the harness believed a session id to be current when the step began
 }
 
 type opRec struct {
@@ -141,6 +230,8 @@ type opRec struct {
 	From     int    `json:"server_log_from"`
 	To       int    `json:"server_log_to"`
 	Err      string `json:"err,omitempty"`
+	Scripted string `json:"scripted_failure,omitempty"`           // the harness made this call fail: 503 | veto
+	NoSess   bool   `json:"no_session_to_terminate,omitempty"` // TerminateSession while no session id is current
 	HasBoom  bool   `json:"err_carries_before_request_error,omitempty"`
 	Deadline bool   `json:"watchdog,omitempty"`
 }
@@ -155,6 +246,8 @@ type runResult struct {
 	handler    []*handlerRec
 	factory    []factoryCall
 	ops        []*opRec
+	steps      []*stepRec
+	executed   []step
 	pushes     int
 	answered   int
 	newErr     string
@@ -260,16 +353,23 @@ func execute(sp runSpec) *runResult {
 		return res
 	}
 
+	nextVeto := false // the next call's context is refused by before-request
 	call := func(name, kind string, fn func(ctx context.Context) error) *opRec {
 		idx := len(res.ops)
 		tok := fmt.Sprintf("%sop-%d", prefix, idx)
 		if name == "Initialize" {
 			tok = prefix + "handshake"
-			if sp.retry != "" {
+			if sp.retry != "" || idx > 0 {
 				tok = fmt.Sprintf("%sattempt-%d", prefix, idx+1)
 			}
+			l.setHandshake(tok)
 		}
 		op := &opRec{Idx: idx, Name: name, Kind: kind, Token: tok, From: srv.count()}
+		if nextVeto {
+			nextVeto = false
+			op.Scripted = "veto"
+			l.veto(tok)
+		}
 		res.ops = append(res.ops, op)
 		l.setCurOp(idx)
 		ctx, cancel := context.WithTimeout(withToken(tok), 15*time.Second)
@@ -285,18 +385,82 @@ func execute(sp runSpec) *runResult {
 		return op
 	}
 	befCount := func() int { l.mu.Lock(); defer l.mu.Unlock(); return l.bef }
-	failedSince := func(n int, pred func(kind string) bool) bool {
-		fb := l.failedBefore()
-		return fb != nil && fb.N > n && pred(fb.Kind)
-	}
 
 	streamUp := false
+	// Harness-side model of the Streamable session (only steers the history; the oracle reads the server log).
+	everInit, sessionLive, deadSteps := false, false, 0
 	nextID := 9001
 	providerOn := false
-	for _, st := range sp.hist {
-		if res.initFailed {
-			break
+
+	doInit := func() {
+		b0 := befCount()
+		op := call("Initialize", "initialize", func(ctx context.Context) error {
+			_, e := cl.Initialize(ctx, &mcp.InitializeRequest{})
+			return e
+		})
+		if op.Err != "" {
+			res.initFailed = true
+			return
 		}
+		res.hsTok = op.Token
+		everInit, sessionLive, deadSteps = true, true, 0
+		if sp.client == clLegacy {
+			streamUp = srv.streamOpen()
+			return
+		}
+		// Streamable: the listening stream is opened in the background after the handshake.
+		grace := watchdog
+		if sp.retry == "503" {
+			// An initialize answered without a session id (here: the 503) makes the client switch its
+			// listening stream off for good; whether a GET follows the retried handshake is outside the
+			// statement, so its absence only shortens the history (no pushes), it is not judged.
+			grace = 300 * time.Millisecond
+		}
+		ok := waitFor(grace, func() bool {
+			if l.failedAfter(b0, func(k string) bool { return k == kGetStream }) {
+				return true
+			}
+			answered, _ := srv.streamSince(op.From)
+			return answered
+		})
+		if !ok && sp.retry == "503" {
+			res.noStream = true
+		} else if !ok {
+			res.watchdogs = append(res.watchdogs, "the listening-stream GET was never observed after Initialize")
+		}
+		_, streamUp = srv.streamSince(op.From)
+	}
+	doTerminate := func() *opRec {
+		op := call("TerminateSession", kDelete, func(ctx context.Context) error { return cl.TerminateSession(ctx) })
+		if sp.client == clStream {
+			if !sessionLive {
+				op.NoSess = true
+			} else if op.Err == "" {
+				sessionLive = false
+			}
+		}
+		return op
+	}
+	doNotify := func() *opRec {
+		return call("SendRootsListChangedNotification", kRootsChanged, func(ctx context.Context) error {
+			return cl.SendRootsListChangedNotification(ctx)
+		})
+	}
+	doTarget := func(target string) *opRec {
+		switch target {
+		case "terminate":
+			return doTerminate()
+		case "notify":
+			return doNotify()
+		}
+		return call(opName(target), target, func(ctx context.Context) error { return doOp(ctx, cl, target) })
+	}
+	prev := "(start)"
+	run := func(st step) {
+		rec := &stepRec{Kind: st.kindName(), Prev: prev, Auto: st.Auto, SrvFrom: srv.count(), Live: sessionLive}
+		res.steps = append(res.steps, rec)
+		res.executed = append(res.executed, st)
+		prev = rec.Kind
 		switch st.Kind {
 		case "init-fail":
 			op := call("Initialize", "initialize", func(ctx context.Context) error {
@@ -316,50 +480,16 @@ func execute(sp runSpec) *runResult {
 				}
 			}
 		case "init":
-			op := call("Initialize", "initialize", func(ctx context.Context) error {
-				_, e := cl.Initialize(ctx, &mcp.InitializeRequest{})
-				return e
-			})
-			if op.Err != "" {
-				res.initFailed = true
-				break
-			}
-			res.hsTok = op.Token
-			if sp.client == clLegacy {
-				streamUp = srv.streamOpen()
-				break
-			}
-			// Streamable: the listening stream is opened in the background after the handshake.
-			grace := watchdog
-			if sp.retry == "503" {
-				// An initialize answered without a session id (here: the 503) makes the client switch its
-				// listening stream off for good; whether a GET follows the retried handshake is outside the
-				// statement, so its absence only shortens the history (no pushes), it is not judged.
-				grace = 300 * time.Millisecond
-			}
-			ok := waitFor(grace, func() bool {
-				if failedSince(0, func(k string) bool { return k == kGetStream }) {
-					return true
-				}
-				for _, s := range srv.snapshot() {
-					if s.Kind == kGetStream && srv.statusOf(s) != 0 {
-						return true
-					}
-				}
-				return false
-			})
-			if !ok && sp.retry == "503" {
-				res.noStream = true
-			} else if !ok {
-				res.watchdogs = append(res.watchdogs, "the listening-stream GET was never observed after Initialize")
-			}
-			streamUp = srv.streamOpen()
+			doInit()
+		case "reinit":
+			// Close and initialise the same client object again (the Streamable transport stays usable).
+			_ = cl.Close()
+			streamUp = false
+			doInit()
 		case "op":
-			call(opName(st.Op), st.Op, func(ctx context.Context) error { return doOp(ctx, cl, st.Op) })
+			doTarget(st.Op)
 		case "notify":
-			call("SendRootsListChangedNotification", kRootsChanged, func(ctx context.Context) error {
-				return cl.SendRootsListChangedNotification(ctx)
-			})
+			doNotify()
 		case "provider":
 			providerOn = !providerOn
 			if providerOn {
@@ -369,6 +499,7 @@ func execute(sp runSpec) *runResult {
 			}
 		case "push-roots", "push-unknown":
 			if !streamUp {
+				rec.Skipped = true
 				break
 			}
 			id := nextID
@@ -382,7 +513,7 @@ func execute(sp runSpec) *runResult {
 			srv.pushRequest(id, method)
 			ids := strconv.Itoa(id)
 			ok := waitUntil(func() bool {
-				return srv.answered(ids) || failedSince(b0, func(k string) bool { return k == kRootsAnswer || k == kErrorAnswer })
+				return srv.answered(ids) || l.failedAfter(b0, func(k string) bool { return k == kRootsAnswer || k == kErrorAnswer })
 			})
 			if !ok {
 				res.watchdogs = append(res.watchdogs, fmt.Sprintf("no answer to server-issued %s (id %d) reached the server within %s", method, id, watchdog))
@@ -390,8 +521,70 @@ func execute(sp runSpec) *runResult {
 				res.answered++
 			}
 		case "terminate":
-			call("TerminateSession", kDelete, func(ctx context.Context) error { return cl.TerminateSession(ctx) })
+			doTerminate()
+		case "fail":
+			// an operation that fails, then the same operation again under a new context
+			target, mode := st.Op, st.Fail
+			if target == "terminate" && !sessionLive {
+				target = "tools/list"
+			}
+			if mode == "veto" && !c.B {
+				mode = "503"
+			}
+			if mode == "503" {
+				srv.setFail503(1)
+			} else {
+				nextVeto = true
+			}
+			op := doTarget(target)
+			if mode == "503" {
+				op.Scripted = "503"
+				if srv.pending503() != 0 { // the call sent nothing
+					srv.setFail503(0)
+				}
+			}
+			doTarget(target)
 		}
+		rec.SrvTo = srv.count()
+		if everInit && !sessionLive {
+			deadSteps++
+		}
+	}
+	// A terminated Streamable session is left terminated for one further step (whatever follows the DELETE is
+	// sent without a session); after that the harness re-initialises, unless the history does so itself. The
+	// succession (X, Y) that such an inserted handshake separates is executed again at the end of the history.
+	type pair struct{ x, y step }
+	var separated []pair
+	for i, st := range sp.hist {
+		if res.initFailed {
+			break
+		}
+		if sp.client == clStream && everInit && !sessionLive && deadSteps >= 2 && st.Kind != "reinit" {
+			run(step{Kind: "reinit", Auto: true})
+			if res.initFailed {
+				break
+			}
+			if strings.HasPrefix(sp.label, "succession") && i > 0 {
+				separated = append(separated, pair{sp.hist[i-1], st})
+			}
+		}
+		run(st)
+	}
+	for _, p := range separated {
+		if res.initFailed {
+			break
+		}
+		if !sessionLive {
+			run(step{Kind: "reinit", Auto: true})
+			if res.initFailed {
+				break
+			}
+		}
+		run(p.x)
+		if res.initFailed {
+			break
+		}
+		run(p.y)
 	}
 	_ = cl.Close()
 	res.srv = srv.snapshot()
@@ -463,6 +656,24 @@ func doOp(ctx context.Context, cl *mcp.Client, method string) error {
 type judge struct {
 	r       *vh.Run
 	samples map[string]interface{}
+	succ    map[string]map[string]bool // client -> ordered pairs "a>b" of directly succeeding operation kinds executed
+}
+
+func sameMultiset(a, b []string) bool {
+	if len(a) != len(b) {
+		return false
+	}
+	m := map[string]int{}
+	for _, x := range a {
+		m[x]++
+	}
+	for _, x := range b {
+		m[x]--
+		if m[x] < 0 {
+			return false
+		}
+	}
+	return true
 }
 
 func trunc(s string, n int) string {
@@ -488,8 +699,8 @@ func (j *judge) run(res *runResult) {
 	client := sp.client
 	mask := c.mask()
 	desc := map[string]interface{}{"client": client, "configuration": c.String(), "configuration_mask": mask,
-		"history": sp.label + ": " + histString(sp.hist), "before_request_fails_at": sp.failAt, "first_handshake_fails_by": sp.retry,
-		"served_path": res.served, "announced_message_path": res.msgPath, "session_id": res.sid}
+		"history": sp.label + ": " + histString(res.executed), "before_request_fails_at": sp.failAt, "first_handshake_fails_by": sp.retry,
+		"served_path": res.served, "announced_message_path": res.msgPath, "session_id_prefix": res.sid}
 	viol := func(kind, symptom, what string, extra map[string]interface{}) {
 		w := map[string]interface{}{}
 		for k, v := range desc {
@@ -513,10 +724,12 @@ func (j *judge) run(res *runResult) {
 		}
 		return who + "-wrong-context"
 	}
-	// expectedTok: the context token a request of this kind, issued while operation curOp ran, must carry.
-	expectedTok := func(kind string, curOp int) string {
+	// expectedTok: the context token a request of this kind, issued while operation curOp ran and after the
+	// Initialize call with token hs had been started, must carry. (A background request exists only after a
+	// handshake succeeded, and no Initialize is attempted while a stream is up: the latest started one is it.)
+	expectedTok := func(kind string, curOp int, hs string) string {
 		if isBackground(kind) {
-			return res.hsTok
+			return hs
 		}
 		if curOp >= 0 && curOp < len(res.ops) {
 			return res.ops[curOp].Token
@@ -554,15 +767,12 @@ func (j *judge) run(res *runResult) {
 			}
 		}
 	}
-	issuedAt := -1 // arrival index of the initialize request that was answered with a session id
-	if client == clStream {
-		for _, s := range res.srv {
-			if s.Kind == "initialize" && s.Status == 200 {
-				issuedAt = s.N
-				break
-			}
-		}
-	}
+	// Session bookkeeping, from the server log alone (the client's requests are sequential): the current id is the
+	// one handed out by the latest answered initialize (legacy: connect) and, Streamable, not yet deleted.
+	curSid := ""
+	issuedBefore := map[string]bool{} // every id handed out earlier in this history
+	terminations, generations := 0, 0
+	isSucc := strings.HasPrefix(sp.label, "succession")
 	handlerConfigured := c.R || c.F
 	wantLabel := "factory"
 	if c.R {
@@ -577,6 +787,9 @@ func (j *judge) run(res *runResult) {
 		r.Count("n|"+client+"|"+s.Kind, 1)
 		r.SetAdd("kinds", client+":"+s.Kind)
 		r.Distinct(fmt.Sprintf("%s|%s|%d", client, s.Kind, mask))
+		if isSucc {
+			r.Count("succession_requests_judged", 1)
+		}
 		if sp.retry != "" {
 			r.Count("retry_requests_judged", 1)
 			r.Distinct(fmt.Sprintf("retry-%s|%s|%s|%d", sp.retry, client, s.Kind, mask))
@@ -601,7 +814,11 @@ func (j *judge) run(res *runResult) {
 		expTok := ""
 		switch {
 		case isBackground(s.Kind):
-			expTok = res.hsTok
+			if bj != nil {
+				expTok = bj.HS
+			} else if hj != nil {
+				expTok = hj.HS
+			}
 			op = nil
 		case op != nil:
 			expTok = op.Token
@@ -609,27 +826,68 @@ func (j *judge) run(res *runResult) {
 			r.Count("foreground_requests_outside_any_call", 1)
 		}
 		view := map[string]interface{}{"n": s.N, "method": s.Method, "path": s.Path, "query": s.Query, "kind": s.Kind,
-			"headers": s.Header, "body": trunc(s.Body, 300), "status_answered": s.Status}
+			"headers": s.Header, "body": trunc(s.Body, 300), "status_answered": s.Status, "session_id_current_at_arrival": curSid}
 		extra := map[string]interface{}{"request_at_server": view, "before_request_log": bj, "handler_log": hj, "operation": op, "expected_ctx_token": expTok}
 		bad := 0
 		fail := func(symptom, what string) { bad++; viol(s.Kind, symptom, what, extra) }
 
-		// (1) static headers
-		if c.H {
-			for name, vals := range staticHeaders {
-				got := s.Header.Values(name)
-				for _, v := range vals {
-					if !contains(got, v) {
-						fail("static-header-missing", fmt.Sprintf("request lacks configured static header %s: %s (has %q)", name, v, got))
-						break
-					}
+		// (1) static headers: every configured value, and nothing else under those names
+		for name, vals := range staticHeaders {
+			got := s.Header.Values(name)
+			if !c.H {
+				if len(got) != 0 {
+					fail("static-header-unconfigured", fmt.Sprintf("request carries %s: %q although no static header is configured", name, got))
+				}
+				continue
+			}
+			missing := false
+			for _, v := range vals {
+				if !contains(got, v) {
+					fail("static-header-missing", fmt.Sprintf("request lacks configured static header %s: %s (has %q)", name, v, got))
+					missing = true
+					break
 				}
 			}
+			if !missing && !sameMultiset(got, vals) {
+				fail("static-header-altered", fmt.Sprintf("request carries %s: %q, configured is %q", name, got, vals))
+			}
 		}
-		// (2) session id, once issued
-		if client == clStream && issuedAt >= 0 && s.N > issuedAt {
-			if got := s.Header.Values("Mcp-Session-Id"); len(got) != 1 || got[0] != res.sid {
-				fail("session-id-missing", fmt.Sprintf("request sent after the session id %q was issued carries Mcp-Session-Id %q", res.sid, got))
+		// (2) session id: exactly the current one once one has been issued, none otherwise
+		if client == clStream {
+			got := s.Header.Values("Mcp-Session-Id")
+			after := ""
+			if terminations > 0 {
+				after = "|after-termination"
+				r.Count("requests_judged_after_a_termination", 1)
+				r.Count("n_after_termination|"+s.Kind, 1)
+				if generations > 1 {
+					r.Count("requests_judged_after_termination_and_reinitialize", 1)
+				}
+			}
+			stale := false
+			for _, g := range got {
+				if g != curSid && issuedBefore[g] {
+					stale = true
+				}
+			}
+			switch {
+			case curSid == "" && len(got) == 0:
+				if terminations > 0 {
+					r.Count("requests_conforming_without_session_after_termination", 1)
+				}
+			case curSid == "" && stale:
+				fail("session-id-stale"+after, fmt.Sprintf("no session id is current (none issued yet, or the last one was deleted), the request carries Mcp-Session-Id %q issued earlier", got))
+			case curSid == "":
+				fail("session-id-unissued"+after, fmt.Sprintf("no session id has been issued, the request carries Mcp-Session-Id %q", got))
+			case len(got) == 0:
+				fail("session-id-missing", fmt.Sprintf("request sent after the session id %q was issued carries no Mcp-Session-Id", curSid))
+			case len(got) == 1 && got[0] == curSid:
+			case len(got) > 1 && contains(got, curSid):
+				fail("session-id-duplicated"+after, fmt.Sprintf("request carries %d Mcp-Session-Id values %q, the current session id is %q", len(got), got, curSid))
+			case stale:
+				fail("session-id-stale"+after, fmt.Sprintf("the current session id is %q, the request carries Mcp-Session-Id %q issued earlier", curSid, got))
+			default:
+				fail("session-id-missing", fmt.Sprintf("request sent after the session id %q was issued carries Mcp-Session-Id %q", curSid, got))
 			}
 		}
 		// (3) path
@@ -644,8 +902,8 @@ func (j *judge) run(res *runResult) {
 		} else {
 			if s.Path != res.msgPath {
 				fail("announced-endpoint-ignored", fmt.Sprintf("message POST went to path %q, the server announced %q", s.Path, res.msgPath))
-			} else if s.Query != "sessionId="+res.sid {
-				fail("session-id-missing", fmt.Sprintf("message POST query is %q, the server announced sessionId=%s", s.Query, res.sid))
+			} else if s.Query != "sessionId="+curSid {
+				fail("session-id-missing", fmt.Sprintf("message POST query is %q, the server announced sessionId=%s", s.Query, curSid))
 			}
 		}
 		// (4) request handler
@@ -678,6 +936,23 @@ func (j *judge) run(res *runResult) {
 		} else if len(befs) != 0 {
 			r.Fatal("request tagged by before-request although none is configured: %+v", view)
 		}
+		// (5b) what before-request added for THIS request's context is on the request once, and nothing that it
+		// added for another request
+		ctxVals := s.Header.Values(hdrCtx)
+		if !c.B && len(ctxVals) != 0 {
+			r.Fatal("request carries a before-request context header although none is configured: %+v", view)
+		}
+		if c.B && len(befs) == 1 && bj != nil && !bj.Failed {
+			own := bj.Token
+			switch {
+			case len(ctxVals) == 1 && ctxVals[0] == own:
+				r.Count("context_header_exact", 1)
+			case len(ctxVals) == 0:
+				fail("before-request-header-lost", fmt.Sprintf("before-request added %s: %s, the request arrived without it", hdrCtx, own))
+			default:
+				fail("foreign-before-request-header", fmt.Sprintf("request carries %s: %q, before-request added exactly %q for this request (the rest stems from other requests)", hdrCtx, ctxVals, own))
+			}
+		}
 		// (6) the configured handler is handed the same context values
 		if hj != nil && expTok != "" && hj.Token != expTok {
 			fail(ctxSymptom("handler", hj.Token), fmt.Sprintf("the request handler saw context token %q, the calling operation's is %q", hj.Token, expTok))
@@ -685,6 +960,19 @@ func (j *judge) run(res *runResult) {
 		if bad == 0 {
 			r.Count("requests_conforming", 1)
 			r.SetAdd("kinds_conforming", client+":"+s.Kind)
+		}
+		// session bookkeeping for the requests that follow
+		if s.Issued != "" && s.Status == 200 {
+			if curSid != "" {
+				issuedBefore[curSid] = true
+			}
+			curSid = s.Issued
+			generations++
+		}
+		if client == clStream && s.Kind == kDelete && s.Status == 200 && curSid != "" {
+			issuedBefore[curSid] = true
+			curSid = ""
+			terminations++
 		}
 		if mask == 15 && sp.failAt == 0 && sp.label == "canonical" && (sp.retry == "" || sp.retry == "503") {
 			key := client + "|" + s.Kind
@@ -694,6 +982,59 @@ func (j *judge) run(res *runResult) {
 			if _, ok := j.samples[key]; !ok {
 				j.samples[key] = map[string]interface{}{"client": client, "configuration": c.String(), "request_at_server": view,
 					"before_request_log": bj, "handler_log": hj, "operation": op, "expected_ctx_token": expTok, "conforming": bad == 0}
+			}
+		}
+	}
+	r.Max("session_ids_issued_per_history", int64(generations))
+	r.Max("terminations_per_history", int64(terminations))
+	// succession histories: which operation kind was directly followed by which (only steps that were really
+	// attempted count, and only those during which a request reached the server - or a terminate without session)
+	if isSucc {
+		for _, st := range res.steps {
+			r.Count("succession_steps", 1)
+			if st.Skipped {
+				r.Count("succession_steps_skipped", 1)
+				continue
+			}
+			if st.Auto {
+				r.Count("succession_auto_reinitialize", 1)
+				continue
+			}
+			if st.SrvTo == st.SrvFrom && st.Kind != "terminate" {
+				r.Count("succession_steps_without_request", 1)
+				continue
+			}
+			r.Eval(1)
+			pair := st.Prev + ">" + st.Kind
+			if j.succ[client] == nil {
+				j.succ[client] = map[string]bool{}
+			}
+			if alphabet := successionKinds(client); contains(alphabet, st.Prev) && contains(alphabet, st.Kind) {
+				j.succ[client][pair] = true
+			}
+			if st.Prev == "(start)" {
+				continue
+			}
+			hb := 0
+			if c.H {
+				hb |= 1
+			}
+			if c.B {
+				hb |= 2
+			}
+			r.Distinct(fmt.Sprintf("succ|%s|%s|hb%d", client, pair, hb))
+			if !st.Live && client == clStream && st.SrvTo > st.SrvFrom {
+				r.Count("succession_steps_sending_while_session_terminated", 1)
+				r.SetAdd("kinds_sent_while_session_terminated", st.Kind)
+			}
+		}
+		for _, op := range res.ops {
+			if op.Scripted != "" {
+				r.Count("scripted_failure_then_retry|"+client+"|"+op.Scripted+"|"+op.Kind, 1)
+				r.SetAdd("failed_then_retried", client+":"+op.Scripted+":"+op.Kind)
+			}
+			if op.NoSess {
+				r.Count("terminate_without_session", 1)
 			}
 		}
 	}
@@ -708,7 +1049,7 @@ func (j *judge) run(res *runResult) {
 			continue
 		}
 		// never reached the server (vetoed, or refused connection): the context is judged from the log alone
-		if exp := expectedTok(b.Kind, b.CurOp); exp != "" && b.Token != exp {
+		if exp := expectedTok(b.Kind, b.CurOp, b.HS); exp != "" && b.Token != exp {
 			r.Eval(1)
 			viol(b.Kind, ctxSymptom("before-request", b.Token), fmt.Sprintf("before-request saw context token %q for a request issued by the call with token %q", b.Token, exp),
 				map[string]interface{}{"before_request_log": b, "expected_ctx_token": exp})
@@ -720,7 +1061,7 @@ func (j *judge) run(res *runResult) {
 	}
 	for _, h := range res.handler {
 		if seenSeq[strconv.Itoa(h.Seq)] == 0 {
-			if exp := expectedTok(h.Kind, h.CurOp); exp != "" && h.Token != exp {
+			if exp := expectedTok(h.Kind, h.CurOp, h.HS); exp != "" && h.Token != exp {
 				r.Eval(1)
 				viol(h.Kind, ctxSymptom("handler", h.Token), fmt.Sprintf("the request handler saw context token %q for a request issued by the call with token %q", h.Token, exp),
 					map[string]interface{}{"handler_log": h, "expected_ctx_token": exp})
@@ -761,6 +1102,9 @@ func (j *judge) run(res *runResult) {
 		}
 		if vetoedOp[op.Idx] {
 			continue
+		}
+		if op.Scripted == "503" || op.NoSess {
+			continue // answered 503 by script; nothing to terminate: either outcome is accepted
 		}
 		if sp.retry != "" && op.Name == "Initialize" {
 			continue // first: fails by script; second: accepted when the client cannot be re-initialised (counted above)
@@ -852,7 +1196,7 @@ func main() {
 	kit.Silence()
 	r := vh.NewRun("C19", "exploration")
 	origFactory := mcp.NewHTTPReqHandler
-	j := &judge{r: r, samples: map[string]interface{}{}}
+	j := &judge{r: r, samples: map[string]interface{}{}, succ: map[string]map[string]bool{}}
 	clients := []string{clStream, clLegacy}
 
 	type vetoBase struct {
@@ -923,6 +1267,29 @@ func main() {
 			}
 		}
 	}
+	// fourth pass: succession histories - every operation kind directly followed by every operation kind on one
+	// client object, including TerminateSession, Close + Initialize again, and failed-then-retried operations
+	succRounds := r.Pick(1, 4)
+	succVetoes := r.Pick(0, 3)
+	for _, client := range clients {
+		for mask := 0; mask < 32; mask++ {
+			c := cfgOf(mask)
+			rng := r.Rand(fmt.Sprintf("succ-%s-%d", client, mask))
+			for k := 0; k < succRounds; k++ {
+				sp := runSpec{client: client, cfg: c, hist: successionHistory(client, rng), label: fmt.Sprintf("succession-%d", k)}
+				res := execute(sp)
+				j.run(res)
+				if !c.B || len(res.before) == 0 {
+					continue
+				}
+				for i := 0; i < succVetoes; i++ {
+					v := sp
+					v.failAt = 1 + rng.Intn(len(res.before))
+					j.run(execute(v))
+				}
+			}
+		}
+	}
 	if fmt.Sprintf("%p", mcp.NewHTTPReqHandler) != fmt.Sprintf("%p", origFactory) {
 		r.Fatal("NewHTTPReqHandler was not restored")
 	}
@@ -952,6 +1319,18 @@ func main() {
 			r.Require(r.Counter("retry_second_handshake_ok|"+cl+"|"+mode) > 0, "no retried handshake of the %s client succeeded after a first one failed by %s", cl, mode)
 		}
 	}
+	for _, cl := range clients {
+		n := len(successionKinds(cl))
+		r.Count("successions_observed|"+cl, int64(len(j.succ[cl])))
+		r.Require(len(j.succ[cl]) == n*n, "only %d of the %d ordered pairs of operation kinds were executed in direct succession on a %s client", len(j.succ[cl]), n*n, cl)
+	}
+	r.Require(r.Counter("requests_judged_after_a_termination") > 0, "no request sent after a session termination was judged")
+	r.Require(r.Counter("requests_conforming_without_session_after_termination") > 0, "no request sent between a termination and the next handshake was judged")
+	r.Require(r.Counter("requests_judged_after_termination_and_reinitialize") > 0, "no request sent in a re-issued session (terminate, Close, Initialize again) was judged")
+	for _, k := range []string{"initialize", "notifications/initialized", kGetStream, kRootsAnswer, kErrorAnswer, kRootsChanged, kDelete, "tools/call"} {
+		r.Require(r.Counter("n_after_termination|"+k) > 0, "request kind %s was never observed after a session termination on the same client", k)
+	}
+	r.Require(r.Counter("context_header_exact") > 0, "no request with a before-request context header was judged")
 	if n := r.Counter("retry_no_listening_stream_after_503"); n > 0 {
 		r.Note(fmt.Sprintf("observation outside the statement: in %d retry histories the Streamable client opened no listening stream after the retried handshake: an initialize answered 503 (no session id) sets isStateless/enableGetSSE=false in send() before the status check, and the later successful handshake does not switch GET SSE back on", n))
 	}
